@@ -97,7 +97,8 @@ RowsMatch(d, rows) ==
 \* value-level clauses of C09, evaluated by the audit with plain SQL and logged:
 \*   epochs unique, strictly increasing, timestamp = Julian date (independent conversion);
 \*   no row refers to a missing epoch or agent; stored states/covariances equal the held ones
-ValuesOk(rows) == rows.epochs_ok /\ rows.dangling = 0 /\ rows.readback
+\*   at most one detected-maneuver / filter-step row per (epoch, target)
+ValuesOk(rows) == rows.epochs_ok /\ rows.dangling = 0 /\ rows.readback /\ rows.dup_rows = 0
 TSaveOutput == IsEvent("SaveOutput") /\ SaveOutput /\ RowsMatch(db', Rec.rows) /\ ValuesOk(Rec.rows)
 \* a commit that raised: the audit of all tables afterwards must equal the state before
 TSaveFail == IsEvent("SaveFail") /\ SaveFail /\ RowsMatch(db', Rec.rows)
